@@ -304,3 +304,35 @@ def recovery_started_parent_before_children(run: Any) -> str | None:
                 if st not in CONTINUABLE:
                     return f"recovery pushed StartTask for {id2ref.get(sid, sid)} while its before-stage {id2ref.get(cid, cid)} was {st}"
     return None
+
+
+def lost_plan_witness(run: Any) -> str | None:
+    """Mechanism classifier: a StartStage handler claimed a stage (NOT_STARTED->RUNNING
+    committed) but its plan commit never happened although the message was marked
+    processed: the plan's store_stage lost the optimistic lock to a concurrent writer of
+    the same stage row and StartStageHandler swallowed the ConcurrencyError."""
+    groups = Groups(run.commits)
+    by_group: dict[int, list[dict]] = {}
+    for a in run.audit:
+        by_group.setdefault(groups.of(a["seq"]), []).append(a)
+    id2ref = {v["id"]: k for k, v in run.state.get("stages", {}).items()}
+    for g, rows in by_group.items():
+        tag = groups.tag(g)
+        if not tag or tag[0] != "StartStage":
+            continue
+        claim = [a for a in rows if a["kind"] == "status" and a["op"] == "stage" and a["c"] == "NOT_STARTED" and a["d"] == "RUNNING"]
+        if not claim or any(a["kind"] == "mark" for a in rows):
+            continue
+        # find the commit that carries this message's processed mark
+        for g2, rows2 in by_group.items():
+            if g2 <= g or groups.tag(g2) != tag:
+                continue
+            if any(a["kind"] == "mark" and a["a"] == tag[1] for a in rows2):
+                pushed = [a for a in rows2 if a["kind"] == "queue" and a["op"] == "ins"]
+                if not pushed:
+                    sid = claim[0]["a"]
+                    between = [a for a in run.audit if claim[0]["seq"] < a["seq"] and groups.of(a["seq"]) < g2 and groups.tag(groups.of(a["seq"])) != tag and a["kind"] in ("status", "mark")]
+                    who = sorted({str(groups.tag(groups.of(a["seq"]))) for a in between})
+                    return f"StartStage row {tag[1]} claimed {id2ref.get(sid, sid)} at seq {claim[0]['seq']} but committed no plan (its mark commit pushed nothing); commits in between by {who[:4]}"
+                break
+    return None
